@@ -285,6 +285,17 @@ Proof.
   unfold C10_reissue_ok. rewrite X. destruct replied; reflexivity.
 Qed.
 
+(* what passes the client passes the authentication step alone (the receiver the
+   harness uses to judge encoder output of either direction) *)
+Theorem client_accept_authentic : forall open b key id r,
+  client_accept open b key id = Ok r -> server_accept open b key = Ok r.
+Proof.
+  intros open b key id r H. unfold client_accept in H. unfold server_accept.
+  destruct (decode_packet b) as [p| | |]; try discriminate.
+  unfold process_response in H. unfold process_request.
+  destruct (negb (bytes_eqb id (p_uid p))); [discriminate|exact H].
+Qed.
+
 (* ---- "the use of a different key is rejected" does not follow from what
    AES-SIV provides: the cipher ex2 (Proofs/NtsAuthInstance.v) meets aead_siv,
    and a request that the project's encoder seals under the key k2 is accepted
